@@ -651,7 +651,9 @@ class Parser:
         elif len(tokens) == 1:
             return tokens[0]
         else:
-            raise DisambiguationError(Location(head), tokens)
+            # The error is located at the ambiguous tokens, not at the
+            # symbol on top of the stack.
+            raise DisambiguationError(Location(ErrorContext(head)), tokens)
 
     def _next_tokens(self, head):
         """
